@@ -876,6 +876,10 @@ func (ix *Index) populateDeleteClaim(ctx context.Context, cl schema.Claim, vr *j
 		return nil
 	}
 	mm.Set(keyDeleted.Key(target, cl.ClaimDateString(), br), "")
+	// The in-memory deletes caches are updated for exactly the delete
+	// claims that get a "deleted" row, so that they hold after a restart
+	// what they held before it.
+	mm.noteDelete(cl)
 	if meta.CamliType == schema.TypeClaim {
 		return nil
 	}
@@ -905,7 +909,6 @@ func (ix *Index) populateClaim(ctx context.Context, fetcher *missTrackFetcher, b
 		if err := ix.populateDeleteClaim(ctx, claim, vr, mm); err != nil {
 			return err
 		}
-		mm.noteDelete(claim)
 		return nil
 	}
 
